@@ -2,6 +2,8 @@ package main
 
 import (
 	"fmt"
+	compact_time "github.com/kstenerud/go-compact-time"
+	"io"
 	"math/big"
 	"reflect"
 	"time"
@@ -48,6 +50,14 @@ func deepAbs(v interface{}) string {
 			case apd.Decimal:
 				extra += fmt.Sprintf("|apd(%v,%s,%d,%v)", x.Negative, x.Coeff.String(), x.Exponent, x.Form)
 				return
+			case *compact_time.Time:
+				if x != nil {
+					extra += fmt.Sprintf("|ct(%#v)", *x) // every field as stored, also the ones a constructor would derive
+				}
+				return
+			case compact_time.Time:
+				extra += fmt.Sprintf("|ct(%#v)", x)
+				return
 			}
 		}
 		switch rv.Kind() {
@@ -84,6 +94,100 @@ type c18Holder struct {
 	VD apd.Decimal
 	I  interface{}
 	S  []*big.Int
+}
+
+type c18Times struct {
+	P *compact_time.Time
+	V compact_time.Time
+	I interface{}
+	S []*compact_time.Time
+	M map[string]*compact_time.Time
+}
+
+// c18HandBuiltTimes: compact times filled in field by field rather than through the constructors
+// (zone given by its long name only, by its short name only, by coordinates, offset, none), held every way.
+func c18HandBuiltTimes(c *Check) {
+	cfg := configuration.New()
+	zones := []compact_time.Timezone{
+		{Type: compact_time.TimezoneTypeAreaLocation, LongAreaLocation: "Europe/Berlin"},
+		{Type: compact_time.TimezoneTypeAreaLocation, ShortAreaLocation: "E/Berlin"},
+		{Type: compact_time.TimezoneTypeAreaLocation, ShortAreaLocation: "E/Berlin", LongAreaLocation: "Europe/Berlin"},
+		{Type: compact_time.TimezoneTypeAreaLocation, LongAreaLocation: "America/Argentina/Buenos_Aires"},
+		{Type: compact_time.TimezoneTypeLatitudeLongitude, LatitudeHundredths: 5016, LongitudeHundredths: -1427},
+		{Type: compact_time.TimezoneTypeUTCOffset, MinutesOffsetFromUTC: 90},
+		{Type: compact_time.TimezoneTypeUTC},
+		{Type: compact_time.TimezoneTypeLocal},
+	}
+	for zi, z := range zones {
+		for _, kind := range []compact_time.TimeType{compact_time.TimeTypeTime, compact_time.TimeTypeTimestamp} {
+			mk := func() *c18Times {
+				t := func() *compact_time.Time {
+					return &compact_time.Time{Type: kind, Timezone: z, Year: 2020, Month: 1, Day: 15, Hour: 10, Minute: 20, Second: 30, Nanosecond: 5}
+				}
+				return &c18Times{P: t(), V: *t(), I: t(), S: []*compact_time.Time{t(), t()}, M: map[string]*compact_time.Time{"k": t()}}
+			}
+			for _, format := range []string{"cbe", "cte"} {
+				h := mk()
+				before := deepAbs(h)
+				c.Count(fmt.Sprint("time", zi, kind, format), true)
+				for round := 0; round < 2; round++ {
+					runWithWatchdog(watchdogShort, func() {
+						if format == "cbe" {
+							ce.MarshalToCBEDocument(h, cfg)
+						} else {
+							ce.MarshalToCTEDocument(h, cfg)
+						}
+					})
+					if after := deepAbs(h); after != before {
+						c.Violation(fmt.Sprintf("marshaling hand-built compact times (zone %#v) to %s modifies them: before %s, after %s", z, format, before, after),
+							map[string]interface{}{"kind": "time-mutation", "zone": fmt.Sprintf("%#v", z), "format": format, "before": before, "after": after})
+						break
+					}
+				}
+				c.AddTraces(1)
+			}
+		}
+	}
+}
+
+// c18FailingWriters: a marshal call that fails half way (the destination refuses a Write) leaves the
+// value as it was, too.
+func c18FailingWriters(c *Check) {
+	cfg := configuration.New()
+	for _, is := range []string{"-1", "-9223372036854775809", "-18446744073709551615", "-18446744073709551616", "-340282366920938463463374607431768211456", "123456789012345678901234567890"} {
+		mk := func() *c18Holder {
+			nb := func() *big.Int { b, _ := new(big.Int).SetString(is, 10); return b }
+			bf, _, _ := big.ParseFloat("-1.0000000000000000000000001", 0, 200, big.ToNearestEven)
+			d, _, _ := apd.NewFromString("-123456789012345678901234567890.10")
+			return &c18Holder{PI: nb(), VI: *nb(), PF: bf, VF: *bf, PD: d, VD: *d, I: nb(), S: []*big.Int{nb(), nb()}}
+		}
+		for _, format := range []string{"cbe", "cte"} {
+			marshal := func(h *c18Holder, w io.Writer) error {
+				if format == "cbe" {
+					return ce.MarshalCBE(h, w, cfg)
+				}
+				return ce.MarshalCTE(h, w, cfg)
+			}
+			w0 := &faultyWriter{failAt: -1}
+			if err := marshal(mk(), w0); err != nil {
+				machineryFail("C18: marshaling the big number holder fails without faults: %v", err)
+			}
+			for failAt := 0; failAt < w0.calls && failAt < 60; failAt++ {
+				for _, how := range []string{"nothing", "partial"} {
+					h := mk()
+					before := deepAbs(h)
+					c.Count(fmt.Sprint("fault", is, format, failAt, how), true)
+					runWithWatchdog(watchdogShort, func() { marshal(h, &faultyWriter{failAt: failAt, permanent: true, how: how}) })
+					c.AddTraces(1)
+					if after := deepAbs(h); after != before {
+						c.Violation(fmt.Sprintf("a %s marshal call whose destination fails at Write #%d modifies the value: before %s, after %s", format, failAt+1, before, after),
+							map[string]interface{}{"kind": "bignum-mutation-on-failure", "int": is, "format": format, "fail_at": failAt, "before": before, "after": after})
+						break
+					}
+				}
+			}
+		}
+	}
 }
 
 // c18BigNumbers: the magnitude / sign / precision classes of big numbers, held every way.
